@@ -397,12 +397,12 @@ func init() {
 
 func TestC06(t *testing.T) {
 	a := c06Dump
-	a.Checks = n(120, 4000)
+	a.Checks = n(120, 1500)
 	a.Run(t)
 	b := c06Layout
-	b.Checks = n(100, 2000)
+	b.Checks = n(100, 1000)
 	b.Run(t)
 	c := c06PP
-	c.Checks = n(10, 600)
+	c.Checks = n(10, 200)
 	c.Run(t)
 }
